@@ -21,7 +21,7 @@ Init == i = 1
 
 Next == /\ i <= Len(Recs)
         /\ LET r == Recs[i]
-               bad == MonRun(Mon0, r.steps, Cases[r.c].checks) IN
+               bad == MonRun(Mon0, r.steps, Cases[r.c]) IN
            PrintT(ToJson([i |-> i, c |-> r.c, form |-> r.form, bad |-> bad]))
         /\ i' = i + 1
 
